@@ -177,3 +177,6 @@ PROPS["C11"]["units"].append(Unit("c10_tasks", "harness/c10_tasks.cpp", cfg="p20
 # C10 with async stack tracing compiled in (g++ C++20): the await paths differ (frames pushed/popped around every await)
 PROPS["C10"]["units"].append(Unit("c10_tasks_traced", "harness/c10_tasks.cpp", cfg="s20", max_size=100, quick=(20, 400000), thorough=(300, 20000000)))
 PROPS["C10"]["assumptions"] = PROPS["C10"]["assumptions"][:1] + ["two builds: C++20 clang without async stack tracing, and C++20 g++ with tracing on (unit c10_tasks_traced)"]
+
+# C07 for the epoll context's timers (kernel time, not virtual): the C14 epoll unit's concurrent timer group with remote stops
+PROPS["C07"]["units"].append(Unit("c14_epoll", "harness/c14_epoll.cpp", cfg="d17", max_size=120, pin=True, shards=8, quick=(25, 300000), thorough=(300, 20000000)))
